@@ -308,11 +308,13 @@ FORMM = """
 
 PLAN = """
     // ---------------------------------------------------------------- K8: pass planning, observed through the requested tables
-    fn plan(sw: u32, sh: u32, left: f64, cw: f64, dw: u32, dh: u32) -> (usize, (u32, u32), (u32, u32)) {
+    fn plan(sw: u32, sh: u32, left: f64, cw: f64, dw: u32, dh: u32) -> (usize, (u32, u32), (u32, u32)) { plan2(sw, sh, left, 0.0, cw, sh as f64, dw, dh) }
+
+    fn plan2(sw: u32, sh: u32, left: f64, top: f64, cw: f64, ch: f64, dw: u32, dh: u32) -> (usize, (u32, u32), (u32, u32)) {
         let sp: [u8; 9] = kani::any();
         let src: [U8; 9] = [U8::new(sp[0]), U8::new(sp[1]), U8::new(sp[2]), U8::new(sp[3]), U8::new(sp[4]), U8::new(sp[5]), U8::new(sp[6]), U8::new(sp[7]), U8::new(sp[8])];
         let mut dst = [U8::new(1); 4];
-        let opts = ResizeOptions::new().resize_alg(ResizeAlg::Convolution(FilterType::Mitchell)).crop(left, 0.0, cw, sh as f64);
+        let opts = ResizeOptions::new().resize_alg(ResizeAlg::Convolution(FilterType::Mitchell)).crop(left, top, cw, ch);
         let mut r = fv_resizer(Vec::new(), Vec::new(), Vec::new());
         let s = TypedImageRef::new(sw, sh, &src[..(sw * sh) as usize]).unwrap();
         let mut d = TypedImage::from_pixels_slice(dw, dh, &mut dst[..(dw * dh) as usize]).unwrap();
@@ -352,6 +354,16 @@ PLAN = """
     #[kani::unwind(7)]
     #[kani::stub(crate::convolution::precompute_coefficients, crate::convolution::fv_formm::fv_stub_precompute_coefficients_rec)]
     #[kani::stub(crate::convolution::optimisations::Normalizer16::new, crate::convolution::optimisations::fv_nstub::fv_stub_normalizer16_new_identity)]
+    fn k8_plan_fractional_top() {
+        // height matches (crop 2 high -> dst 2 high) but the crop starts at half a row: the vertical pass IS required
+        let (n, c0, c1) = plan2(3, 3, 0.0, 0.5, 3.0, 2.0, 2, 2);
+        assert!(n == 2 && c0 == (3, 2) && c1 == (3, 2));
+    }
+
+    #[kani::proof]
+    #[kani::unwind(7)]
+    #[kani::stub(crate::convolution::precompute_coefficients, crate::convolution::fv_formm::fv_stub_precompute_coefficients_rec)]
+    #[kani::stub(crate::convolution::optimisations::Normalizer16::new, crate::convolution::optimisations::fv_nstub::fv_stub_normalizer16_new_identity)]
     fn k8_plan_both_passes() {
         let (n, c0, c1) = plan(3, 2, 0.0, 3.0, 2, 1);
         assert!(n == 2 && c0 == (3, 2) && c1 == (2, 1));   // horizontal table first (columns 3 -> 2), then vertical (rows 2 -> 1)
@@ -379,6 +391,49 @@ PLAN = """
     }
 """
 
+SHIFT = """
+    // ---------------------------------------------------------------- K8: temp image sizing + bound shifting (statement slices of do_convolution)
+    fn any_wininv_bounds(in_size: u32) -> crate::convolution::Coefficients {
+        // three windows about which only WinInv is known (custom filters: nothing is known about the order of the window starts)
+        let mut bounds = Vec::with_capacity(3);
+        for _ in 0..3 {
+            let (start, size): (u32, u32) = (kani::any(), kani::any());
+            kani::assume(size <= 2 && start as u64 + size as u64 <= in_size as u64);
+            bounds.push(crate::convolution::Bound { start, size });
+        }
+        crate::convolution::Coefficients { values: vec![0.0; 6], window_size: 2, bounds }
+    }
+
+    #[kani::proof]
+    #[kani::unwind(6)]
+    fn k8_shift_horizontal_bounds() {
+        let in_size: u32 = kani::any();
+        let c = any_wininv_bounds(in_size);
+        let (temp_width, shifted) = fv_slice_shift_h(c);
+        kani::cover!(temp_width > 2);
+        // the shifted windows must satisfy WinInv w.r.t. the temporary image that was allocated for them
+        for b in shifted.bounds.iter() { assert!(b.start as u64 + b.size as u64 <= temp_width as u64); }
+    }
+
+    #[kani::proof]
+    #[kani::unwind(6)]
+    fn k8_shift_vertical_bounds() {
+        let in_size: u32 = kani::any();
+        let c = any_wininv_bounds(in_size);
+        let (temp_height, shifted) = fv_slice_shift_v(c);
+        for b in shifted.bounds.iter() { assert!(b.start as u64 + b.size as u64 <= temp_height as u64); }
+    }
+"""
+
+SHIFT_SLICES = [
+    dict(name="fv_slice_shift_h", file=FR, fn="do_convolution", stmts_from="let x_first =", stmts_upto="let temp_width =",
+         more_stmts=[(r"re:horiz_coeffs\s*\.bounds\s*\.iter_mut\(\)", ".for_each(|b| b.start -= x_first);")],
+         params="mut horiz_coeffs: crate::convolution::Coefficients", ret="(u32, crate::convolution::Coefficients)", post="(temp_width, horiz_coeffs)"),
+    dict(name="fv_slice_shift_v", file=FR, fn="do_convolution", stmts_from="let y_first =", stmts_upto="let temp_height =",
+         more_stmts=[(r"re:vert_coeffs\s*\.bounds\s*\.iter_mut\(\)", ".for_each(|b| b.start -= y_first);")],
+         params="mut vert_coeffs: crate::convolution::Coefficients", ret="(u32, crate::convolution::Coefficients)", post="(temp_height, vert_coeffs)"),
+]
+
 UNIT = dict(
     id="P",
     title="pipeline: same-size copy, copy_image contract, scratch image, whole nearest resample, Form-M frame harnesses",
@@ -389,7 +444,7 @@ UNIT = dict(
         functions=[dict(file=FR, fn="resize_typed"), dict(file=FR, fn="copy_image"), dict(file=FR, fn="iter_cropped_rows"),
                    dict(file=FR, fn="get_temp_image_from_buffer"), dict(file=FR, fn="resample_nearest"),
                    dict(file=FR, fn="resample_convolution"), dict(file=FR, fn="do_convolution")],
-        modules=[SUPPORT_MODULE, MD, STUBS, NSTUB, dict(file=FR, name="fv_p", code=CODE + FORMM + PLAN)],
+        modules=[SUPPORT_MODULE, MD, STUBS, NSTUB, dict(file=FR, name="fv_p", code=CODE + FORMM + PLAN + SHIFT, slices=SHIFT_SLICES)],
         harnesses=[
             dict(name="c12_copy_1x1", kind="bounded", timeout=900, props=["C12", "C05", "C03"], bound="src 3x3 U16x2, crop 1x1 at (2,1) and (0,2); every algorithm/filter/multiplicity, alpha on/off, all contents", claim="dst is the bit-exact crop region; spare pixel untouched; no scratch buffer allocated"),
             dict(name="c12_copy_2x2", kind="bounded", timeout=900, props=["C12", "C05", "C03"], bound="src 3x3 U16x2, crop 2x2 at (1,0) and (0,1), every algorithm", claim="bit-exact copy"),
@@ -408,8 +463,14 @@ UNIT = dict(
             dict(name="k8_plan_width_matches", kind="bounded", timeout=1500, props=["C12", "C01"], bound="U8 2x3 -> 2x2, contract stand-ins for the tables", claim="exactly one table is computed (vertical, 3 -> 2): no resampling along the matching dimension"),
             dict(name="k8_plan_height_matches", kind="bounded", timeout=1500, props=["C12", "C01"], bound="U8 3x2 -> 2x2", claim="exactly one table is computed (horizontal, 3 -> 2)"),
             dict(name="k8_plan_fractional_offset", kind="bounded", timeout=1500, props=["C12", "C01"], bound="U8 3x3, crop (0.5, 0, 2, 3) -> 2x2", claim="a fractional crop origin forces the pass along that axis even when the size matches"),
+            dict(name="k8_plan_fractional_top", kind="bounded", timeout=1500, props=["C12", "C01"], bound="U8 3x3, crop (0, 0.5, 3, 2) -> 2x2", claim="a fractional crop top forces the vertical pass even when the height matches"),
             dict(name="k8_plan_both_passes", kind="bounded", timeout=1500, props=["C01", "C12"], bound="U8 3x2 -> 2x1", claim="both tables are computed: horizontal from the source width, vertical from the source height"),
             dict(name="c12_supersampling_intermediate_has_dst_size", kind="bounded", timeout=1500, props=["C12", "C05", "C01"], bound="U8 4x4 -> 1x1, SuperSampling multiplicity 1 (intermediate image 1x1)", claim="the destination receives the intermediate pixel (nothing stale survives); spare pixel untouched"),
+            dict(name="k8_shift_horizontal_bounds", kind="complete", covers=1, timeout=900, props=["C03", "C01"],
+                 claim="statement slice of do_convolution (u8 path): for ANY three windows satisfying WinInv (no order assumed, any u32 in_size) the temp width and the "
+                       "shifted windows are computed without overflow and every shifted window lies inside the temp image"),
+            dict(name="k8_shift_vertical_bounds", kind="complete", timeout=900, props=["C03", "C01"],
+                 claim="same for the vertical bounds of the non-u8 path"),
             dict(name="formm_u8_3x3_to_2x2_any_windows", kind="bounded", timeout=2400, props=["C03"],
                  bound="U8 3x3 -> 2x2 view in 4x4 parent, two passes, ANY WinInv tables (1..=2 taps), any taps, stale scratch buffer",
                  claim="no out-of-bounds access / overflow / panic for window tables about which only WinInv is known (custom filters); frame"),
